@@ -162,3 +162,6 @@ Proof.
   unfold g_type_entry. apply (ok_node _ CT_ok).
   eapply post_bind; [apply CT_rel|apply gg_ty; exact CT_ok|intros; apply gg_trailing; exact CT_ok].
 Qed.
+
+Lemma document_CT fuel : specR CT (g_document fuel).
+Proof. apply gg_document; [exact CT_ok|apply (a_assert _ CT_atoms)]. Qed.
